@@ -31,6 +31,9 @@ var stateSorts = map[string]string{
 	"Wlen":  "(Array (_ BitVec 32) (_ BitVec 64))",
 	"Wfail": "(Array (_ BitVec 32) Bool)",
 	"Gh":    "(Array (_ BitVec 32) (_ BitVec 64))", // generic ghost counters (rootHdr, ...)
+	"Fdata": "(Array (_ BitVec 32) (Array (_ BitVec 64) (_ BitVec 8)))", // ghost files: content
+	"Flen":  "(Array (_ BitVec 32) (_ BitVec 64))",
+	"Fpos":  "(Array (_ BitVec 32) (_ BitVec 64))",
 }
 
 var stateKeys []string
@@ -38,6 +41,9 @@ var stateKeys []string
 func init() {
 	for _, s := range allHeapSorts {
 		stateSorts[s.heap()] = heapSort(s)
+	}
+	for k, v := range mapKeys() {
+		stateSorts[k] = v
 	}
 	for k := range stateSorts {
 		stateKeys = append(stateKeys, k)
